@@ -5,6 +5,9 @@
      event  := 1 via cidmode reqmode alt client req pool tmin tmax tlo thi answer opt51 rows   (Alloc)
              | 2 d                                                                            (Tick)
              | 3 rows                                                                         (Restart)
+             | 4 rows                      (Kill: rows of a copy of the store files, taken while open)
+             | 5 ...as 1...                (Alloc whose reply is produced but never reaches the client:
+                                            same step, but the grant is not logged as held)
      via    := 0 Pool::allocate_address | 1 handle_pkt(DISCOVER) | 2 handle_pkt(REQUEST)
      cidmode reqmode alt : how the harness put client id / requested address into the packet
                            (input for replay; the model only sees the effective client/req)
@@ -66,12 +69,20 @@ Definition tok_answer (ts : list N) : option (ianswer * list N) :=
   | _ => None
   end.
 
-Record ialloc := { i_via : N; i_op : op; i_tlo : N; i_thi : N; i_ans : ianswer; i_opt51 : option N; i_rows : list row }.
-Inductive ievent := IAlloc (a : ialloc) | ITick (d : N) | IRestart (rows : list row).
+Record ialloc := { i_via : N; i_lost : bool; i_op : op; i_tlo : N; i_thi : N; i_ans : ianswer; i_opt51 : option N; i_rows : list row }.
+Inductive ievent := IAlloc (a : ialloc) | ITick (d : N) | IRestart (rows : list row) | IKill (rows : list row).
 
 Definition tok_event (ts : list N) : option (ievent * list N) :=
   match ts with
-  | 1 :: via :: _cid :: _rq :: _alt :: r =>
+  | kind :: via :: _cid :: _rq :: _alt :: r =>
+      if negb ((kind =? 1) || (kind =? 5)) then
+        match ts with
+        | 2 :: d :: r => Some (ITick d, r)
+        | 3 :: r => match tok_rows r with Some (rows, r') => Some (IRestart rows, r') | None => None end
+        | 4 :: r => match tok_rows r with Some (rows, r') => Some (IKill rows, r') | None => None end
+        | _ => None
+        end
+      else
       match tok_bytes r with
       | Some (c, r1) =>
         match tok_opt r1 with
@@ -84,7 +95,7 @@ Definition tok_event (ts : list N) : option (ievent * list N) :=
               | Some (o51, r5) =>
                 match tok_rows r5 with
                 | Some (rows, r6) =>
-                    Some (IAlloc {| i_via := via;
+                    Some (IAlloc {| i_via := via; i_lost := kind =? 5;
                                     i_op := {| o_client := c; o_req := req; o_pool := pool; o_min := tmin; o_max := tmax |};
                                     i_tlo := tlo; i_thi := thi; i_ans := ans; i_opt51 := o51; i_rows := rows |}, r6)
                 | None => None
@@ -101,6 +112,7 @@ Definition tok_event (ts : list N) : option (ievent * list N) :=
       end
   | 2 :: d :: r => Some (ITick d, r)
   | 3 :: r => match tok_rows r with Some (rows, r') => Some (IRestart rows, r') | None => None end
+  | 4 :: r => match tok_rows r with Some (rows, r') => Some (IKill rows, r') | None => None end
   | _ => None
   end.
 
@@ -271,6 +283,14 @@ Fixpoint fold_events (which : N) (s : fstate) (es : list ievent) : list N :=
       fold_events which {| f_prev := rows; f_log := f_log s; f_now := f_now s; f_idx := f_idx s + 1;
                            f_mask := N.lor (f_mask s) 32;
                            f_diff := if rows_same (f_prev s) rows then f_diff s else note_diff s 3 |} es'
+  | IKill rows :: es' =>
+      (* C18: what a SIGKILL at this instant leaves on disk (a copy of the store files taken
+         while the connection is open) must hold the row of every allocation whose reply was
+         already produced -- every such allocation is committed before the reply, so the copy
+         shows exactly the live rows.  For the other properties a kill is a no-op. *)
+      if (which =? 18) && negb (rows_same (f_prev s) rows) then v_viol 4 else
+      fold_events which {| f_prev := f_prev s; f_log := f_log s; f_now := f_now s; f_idx := f_idx s + 1;
+                           f_mask := N.lor (f_mask s) 64; f_diff := f_diff s |} es'
   | IAlloc a :: es' =>
       if negb ((f_now s <=? i_tlo a) && (i_tlo a <=? i_thi a)) then v_bad
       else
@@ -278,7 +298,8 @@ Fixpoint fold_events (which : N) (s : fstate) (es : list ievent) : list N :=
       if negb (p =? 0) then v_viol p
       else
       let '(code, ans) := model_step (f_prev s) a in
-      let log' := match i_ans a with
+      let log' := if i_lost a then f_log s else
+                  match i_ans a with
                   | IGranted ip secs k =>
                       let sv := adv_secs a ip secs k in
                       {| g_client := o_client (i_op a); g_addr := ip; g_time := i_thi a;
